@@ -220,6 +220,13 @@ impl ControlHandle {
         }
     }
 
+    fn initialize_channel(&mut self) -> ControlResult<()> {
+        // Clean up control channel state.
+        self.inner.set_halt(self.config.timeout_duration)?;
+        self.inner.clear_halt()?;
+        self.initialize_config()
+    }
+
     fn initialize_config(&mut self) -> ControlResult<()> {
         let abrm = self.abrm()?;
         let sbrm = abrm.sbrm(self)?;
@@ -375,10 +382,14 @@ impl DeviceControl for ControlHandle {
         }
 
         unwrap_or_log!(self.inner.open());
-        // Clean up control channel state.
-        unwrap_or_log!(self.inner.set_halt(self.config.timeout_duration));
-        unwrap_or_log!(self.inner.clear_halt());
-        unwrap_or_log!(self.initialize_config());
+        if let Err(error) = self.initialize_channel() {
+            error!(?error);
+            // Don't leave a half opened handle whose configuration isn't negotiated behind.
+            if let Err(error) = self.inner.close() {
+                error!(?error);
+            }
+            return Err(error);
+        }
 
         Ok(())
     }
